@@ -180,6 +180,11 @@ def _unroll_interpreter(ctx, fwd):
 
     class _I(Mini):
         def expr(self, e, env):
+            if isinstance(e, _ast.Attribute):
+                o = self.expr(e.value, env)
+                if isinstance(o, Obj) and e.attr in o.attrs:
+                    return o.attrs[e.attr]
+                return ('boundmethod', o, e.attr)
             if isinstance(e, _ast.Compare) and len(e.ops) == 1:
                 a, b = self.expr(e.left, env), self.expr(e.comparators[0], env)
                 if isinstance(a, _Vec) or isinstance(b, _Vec):
@@ -202,6 +207,8 @@ def _unroll_interpreter(ctx, fwd):
                     return sum(int(x) if isinstance(x, bool) else x for x in o)
                 if name in ('any', 'all'):
                     return any(o) if name == 'any' else all(o)
+                if name in ('max', 'min') and not args and not kwargs:
+                    return max(o) if name == 'max' else min(o)
                 if name in ('to', 'float', 'int', 'long', 'clone', 'detach'):
                     return _Vec(o)
                 if name == 'nonzero':
@@ -220,8 +227,28 @@ def _unroll_interpreter(ctx, fwd):
                 return int(args[0]) if name == 'int' else float(args[0])
             return super().builtin(name, args, kwargs, node)
 
+    # the class itself: constants of the class body and its other (class / static) methods
+    C = Obj('class')
+    glob = {'torch': T}
+    cnode = fwd.cls.node if fwd.cls is not None else None
+    if cnode is not None:
+        glob[cnode.name] = C
+        for st in cnode.body:
+            if isinstance(st, _ast.Assign) and len(st.targets) == 1 and \
+                    isinstance(st.targets[0], _ast.Name):
+                try:
+                    C.attrs[st.targets[0].id] = Mini({}).expr(st.value, {})
+                except (Unsupported, Raised):
+                    pass
+            elif isinstance(st, _ast.FunctionDef) and st.name not in ('forward', 'backward'):
+                decos = {_ast.unparse(d) for d in st.decorator_list}
+                if 'classmethod' in decos:
+                    C.attrs[st.name] = lambda *a, _n=st: _I(glob).call_function(_n, [C] + list(a))
+                else:
+                    C.attrs[st.name] = lambda *a, _n=st: _I(glob).call_function(_n, list(a))
+
     def run(*vals):
-        m = _I({'torch': T})
+        m = _I(glob)
         return m.call_function(fwd.node, [Obj('ctx')] + list(vals))
     return run, (Unsupported, Raised)
 
@@ -241,7 +268,7 @@ def ox_unroll_summary(ctx):
     fwd = cls.methods['forward']
     names = fwd.params[1:]
     run, errs = _unroll_interpreter(ctx, fwd)
-    consts = sorted({n.value for n in _ast.walk(fwd.node) if isinstance(n, _ast.Constant) and
+    consts = sorted({n.value for n in _ast.walk(cls.node) if isinstance(n, _ast.Constant) and
                      isinstance(n.value, int) and not isinstance(n.value, bool) and n.value >= 16})
     sweep = {1, 2, 3, 4}
     for K in consts:
